@@ -127,6 +127,8 @@ def run(chk):
                           {"kind": "binary", "text": r["text"], "mode": r["mode"], "exit": r["exit"], "stderr": r["stderr"],
                            "what": "the `any` program crashed instead of printing values or diagnostics"})
     chk.cov["runs_of_the_binary"] = nb
+    for x in soups[:3] + uni[:2]:
+        chk.sample({"input": x})
     chk.cov["exhaustive"] = False
     chk.cov["rule"] = ("one evaluation = one input evaluated by one build kind (debug-assertion, release) under catch_unwind, or one run of the binary; inputs: %d token soups of "
                        "1..40 tokens, %d Unicode strings of 1..60 characters, %d fixed edge cases; inputs beyond the stated bounds (power operand of more than two digits, "
